@@ -155,18 +155,52 @@ theorem setStarts_beta (ls : List Chain) (xs : List (List Val × Eval)) :
       unfold setStart
       split <;> simp
 
-theorem loadLevels_beta (ls : List Chain) (sv : List Chain.Saved) :
-    (PTChain.loadLevels ls sv).map (·.beta) = ls.map (·.beta) := by
+theorem loadLevels_length (ls : List Chain) (sv : List Chain.Saved) :
+    (PTChain.loadLevels ls sv).length = ls.length := by
   induction ls generalizing sv with
   | nil => cases sv <;> simp [PTChain.loadLevels]
+  | cons l ls ih => cases sv <;> simp [PTChain.loadLevels, ih]
+
+theorem loadLevels_getElem (ls : List Chain) (sv : List Chain.Saved) (t : Nat) (ht : t < ls.length) :
+    ((PTChain.loadLevels ls sv)[t]'(by rw [loadLevels_length]; exact ht)).beta =
+      if h : t < sv.length then (sv[t]).beta else (ls[t]).beta := by
+  induction ls generalizing sv t with
+  | nil => simp at ht
   | cons l ls ih =>
     cases sv with
     | nil => simp [PTChain.loadLevels]
     | cons s sv =>
-      simp only [PTChain.loadLevels, List.map_cons, ih]
-      congr 1
-      simp only [Chain.load]
-      unfold clear; split <;> rfl
+      cases t with
+      | zero => simp [PTChain.loadLevels, Chain.load]
+      | succ t =>
+        simp only [PTChain.loadLevels, List.getElem_cons_succ, List.length_cons]
+        rw [ih sv t (by simpa using ht)]
+        simp
+
+theorem coherent_load (c : PTChain) (sv : List Chain.Saved) (h : Coherent c) : Coherent (c.load sv) := by
+  unfold Coherent at *
+  have hlen : c.betas.length = c.levels.length := by rw [← h]; simp
+  simp only [PTChain.load]
+  apply List.ext_getElem
+  · simp [loadLevels_length, hlen]
+  · intro t h1 h2
+    have ht : t < c.levels.length := by simpa [loadLevels_length] using h1
+    have htb : t < c.betas.length := by omega
+    simp only [List.getElem_map, List.getElem_zip, List.getElem_range]
+    rw [loadLevels_getElem c.levels sv t ht]
+    by_cases hs : t < sv.length
+    · simp only [hs, dite_true, if_true]
+      have hget : (PTChain.loadLevels c.levels sv).getD t default =
+          (PTChain.loadLevels c.levels sv)[t]'(by rw [loadLevels_length]; exact ht) := by
+        simp [List.getD, List.getElem?_eq_getElem (by rw [loadLevels_length]; exact ht :
+          t < (PTChain.loadLevels c.levels sv).length)]
+      rw [hget, loadLevels_getElem c.levels sv t ht]
+      simp [hs]
+    · simp only [hs, dite_false, if_false]
+      have := congrArg (fun l => l[t]?) h
+      simp only [List.getElem?_map, List.getElem?_eq_getElem ht, List.getElem?_eq_getElem htb,
+        Option.map_some] at this
+      exact Option.some.inj this
 
 /-- COHERENCE, for every reachable state: at every iteration the inverse temperature applied
     inside level `t`'s Metropolis–Hastings steps (`Chain.beta`, the `beta` of `logAR`) is the same
@@ -208,9 +242,7 @@ theorem C17_coherent (c : PTChain) (ops : List PTChain.Op) (h : Coherent c) :
       unfold Coherent at *
       simp only [PTChain.apply, PTChain.extendFor, PTChain.setScratchlen]
       rw [map_beta_congr _ (fun x => x.setScratchlen _) (fun l => rfl)]; exact h
-    | load sv =>
-      unfold Coherent at *
-      simp only [PTChain.apply, PTChain.load]; rw [loadLevels_beta]; exact h
+    | load sv => exact coherent_load c sv h
 
 /-- A freshly built chain is coherent. -/
 theorem C17_fresh_coherent (betas : List Rat) (s : Nat) (cfgs : List PropCfg) (reset dyn : Bool)
